@@ -155,6 +155,49 @@ func c14r1(c *Ctx) {
 			}
 		}
 	}
+	// the varint size function: the encoder writes 7 bits per byte, so a value of L significant bits (L = Len64(x|1), 1…64)
+	// takes ceil(L/7) bytes; the function's return expression is folded for each of the 64 possible L
+	for _, f := range pk.Syntax {
+		for _, d := range f.Decls {
+			fd, ok := d.(*ast.FuncDecl)
+			if !ok || fd.Recv != nil || !strings.HasPrefix(fd.Name.Name, "sov") || fd.Body == nil {
+				continue
+			}
+			construct := fd.Name.Name + ": varint size is ceil(bits/7) for every bit length"
+			var expr ast.Expr
+			if len(fd.Body.List) == 1 {
+				if rs, ok := fd.Body.List[0].(*ast.ReturnStmt); ok && len(rs.Results) == 1 {
+					expr = rs.Results[0]
+				}
+			}
+			if expr == nil {
+				c.Fail(rule, "undecided", fd.Name.Name, construct, c.P.Pos(fd.Pos()), "the size function is not a single return of an arithmetic expression")
+				continue
+			}
+			bad, undecided := "", ""
+			for L := int64(1); L <= 64; L++ {
+				v, ok := foldSizeExpr(expr, L)
+				if !ok {
+					undecided = "the return expression is not arithmetic over Len64(x|1)"
+					break
+				}
+				if want := (L + 6) / 7; v != want {
+					bad = fmt.Sprintf("for a value of %d significant bits the function says %d bytes, the encoder writes %d", L, v, want)
+					break
+				}
+			}
+			switch {
+			case undecided != "":
+				c.Fail(rule, "undecided", fd.Name.Name, construct, c.P.Pos(fd.Pos()), undecided)
+			case bad != "":
+				c.FailX(Oblig{Rule: rule, Func: fd.Name.Name, Construct: construct, Pos: c.P.Pos(fd.Pos()), Kind: "violation",
+					Detail:   bad + ": Size and the slot reserved by the varint encoder are too small (or too large) for such numbers, the last byte lands on the neighbouring field or Marshal panics",
+					Expected: "(Len64(x|1) + 6) / 7"})
+			default:
+				c.OK(rule, fd.Name.Name, construct, c.P.Pos(fd.Pos()), "equal to (L+6)/7 for L = 1…64")
+			}
+		}
+	}
 	var msgs []string
 	for m := range wantNums {
 		msgs = append(msgs, m)
@@ -836,6 +879,32 @@ func c14r2(c *Ctx) {
 			}
 		}
 	}
+	// the reader's length classes mirror the writer's table: one byte is the encoding of nil (and nothing else decodes to nil),
+	// a number has at least two bytes
+	lenBuf := leAtom("len(" + ub + ")")
+	for _, r := range returnsOf(unm) {
+		if !isSuccessReturn(r) {
+			continue
+		}
+		facts := ue.LinFactsAt(r, nil)
+		construct := fmt.Sprintf("reader: length class of the value returned @b%d", r.Block().Index)
+		if isNilConst(retval(r, 0)) {
+			if Proves(facts, lenBuf.addK(-1)) && Proves(facts, lenBuf.scale(-1).addK(1)) {
+				c.OK(rule, FuncName(unm), construct, c.P.InstrPos(r), "nil exactly for a one-byte buffer (the writer's encoding of nil)")
+			} else {
+				c.FailX(Oblig{Rule: rule, Func: FuncName(unm), Construct: construct, Pos: c.P.InstrPos(r), Kind: "violation",
+					Detail: "nil is returned for a buffer that is not known to be exactly one byte long: the writer encodes nil as one byte and every number in two or more"})
+			}
+			continue
+		}
+		if Proves(facts, lenBuf.addK(-2)) {
+			c.OK(rule, FuncName(unm), construct, c.P.InstrPos(r), "a number only for buffers of two or more bytes")
+		} else {
+			c.FailX(Oblig{Rule: rule, Func: FuncName(unm), Construct: construct, Pos: c.P.InstrPos(r), Kind: "violation",
+				Detail:   "a number is returned for a buffer that may be one byte long: one byte is what the writer emits for nil, so decode(encode(nil)) is a number (0), the decoded entry is not equal to the encoded one and re-encoding it changes the stored bytes",
+				Expected: "len(buf) == 1 decodes to nil"})
+		}
+	}
 	// success returns carrying a decoded magnitude must come through sign byte 0 or 1
 	for _, r := range returnsOf(unm) {
 		if !isSuccessReturn(r) {
@@ -1288,6 +1357,62 @@ func c14r3(c *Ctx) {
 	indexRule(c, "C14-R3", "index / slice sites of the hand-written amount caster are in range", func(p *Prog, fn *ssa.Function) bool {
 		return p.InPkgs(fn, "data") && !p.Generated(fn)
 	}, 4)
+}
+
+// foldSizeExpr folds an integer expression in which every call of Len64 stands for L (Go int arithmetic on non-negative values).
+func foldSizeExpr(e ast.Expr, L int64) (int64, bool) {
+	switch x := e.(type) {
+	case *ast.ParenExpr:
+		return foldSizeExpr(x.X, L)
+	case *ast.BasicLit:
+		if x.Kind == token.INT {
+			v, err := strconv.ParseInt(x.Value, 0, 64)
+			return v, err == nil
+		}
+	case *ast.CallExpr:
+		if sel, ok := x.Fun.(*ast.SelectorExpr); ok && sel.Sel.Name == "Len64" && len(x.Args) == 1 {
+			// the argument must be x|1 (so that 0 counts as one bit)
+			if be, ok := x.Args[0].(*ast.BinaryExpr); ok && be.Op == token.OR {
+				if lit, ok := be.Y.(*ast.BasicLit); ok && lit.Value == "1" {
+					return L, true
+				}
+			}
+			return 0, false
+		}
+		if id, ok := x.Fun.(*ast.Ident); ok && (id.Name == "int" || id.Name == "uint" || id.Name == "uint64" || id.Name == "int64") && len(x.Args) == 1 {
+			return foldSizeExpr(x.Args[0], L)
+		}
+	case *ast.BinaryExpr:
+		a, ok1 := foldSizeExpr(x.X, L)
+		b, ok2 := foldSizeExpr(x.Y, L)
+		if !ok1 || !ok2 {
+			return 0, false
+		}
+		switch x.Op {
+		case token.ADD:
+			return a + b, true
+		case token.SUB:
+			return a - b, true
+		case token.MUL:
+			return a * b, true
+		case token.QUO:
+			if b == 0 {
+				return 0, false
+			}
+			return a / b, true
+		case token.SHR:
+			if b < 0 || b > 62 {
+				return 0, false
+			}
+			return a >> uint(b), true
+		case token.SHL:
+			if b < 0 || b > 30 {
+				return 0, false
+			}
+			return a << uint(b), true
+		}
+	}
+	return 0, false
 }
 
 func isByteSliceT(t types.Type) bool {
